@@ -1070,6 +1070,35 @@ func ruleLoadFilter(c *Ctx, r *R) {
 			})
 		}
 		r.check(afterBlock, "block comment remainder", c.Pos(cf), "the text after the end of a block comment is examined as the rest of the line", "checkConstraint treats a line that starts with /* as comment to its end: `/* generated */ package main` does not end the header, so a //go:build line further down (inside the code) excludes a file Go would build")
+		// files the go tool leaves out by name: *_test.go (above) and names beginning with _ or .
+		if lp := c.Func("rawLoadPackage"); lp != nil {
+			under, dot := false, false
+			ast.Inspect(lp.Body, func(n ast.Node) bool {
+				call, ok := n.(*ast.CallExpr)
+				if !ok || c.CalleeName(call) != "strings.HasPrefix" || len(call.Args) != 2 {
+					return true
+				}
+				if v, ok := c.ConstString(call.Args[1]); ok {
+					// applied to the file's base name
+					a0 := nosp(c.Src(call.Args[0]))
+					isBase := strings.Contains(a0, "Base(")
+					if id, ok := unparen(call.Args[0]).(*ast.Ident); ok {
+						if def := c.singleDef(id); def != nil && strings.Contains(nosp(c.Src(def)), "Base(") {
+							isBase = true
+						}
+					}
+					if isBase && v == "_" {
+						under = true
+					}
+					if isBase && v == "." {
+						dot = true
+					}
+				}
+				return true
+			})
+			r.check(under && dot, "underscore and dot files", c.Pos(lp), "files whose base name begins with _ or . are not package files",
+				"rawLoadPackage takes every *.go file but *_test.go: a parked _old.go (its init runs) or an editor's .#main.go lock file (a parse error for the whole package) is loaded, where the go tool ignores files whose names begin with _ or .")
+		}
 		r.check(tagOK, "tag predicate", c.Pos(cf), `only the tag "goat" is set`, `the build-constraint evaluator's tag predicate is not exactly t == "goat"`)
 		ast.Inspect(cf.Body, func(n ast.Node) bool {
 			if rs, ok := n.(*ast.ReturnStmt); ok && len(rs.Results) == 2 && isIdent(rs.Results[0], "true") && isIdent(rs.Results[1], "nil") {
